@@ -2,7 +2,7 @@
    _MultiPassWorkflowCoordinator.execute and Program.run do after the two alignment passes) commutes with it. *)
 From Coq Require Import ZArith QArith List Bool Lia.
 Import ListNotations.
-Require Import Py Pairing Core Multi Coordinator PyProofs SrcErase LocalProofs1.
+Require Import Py Pairing Core Multi Coordinator PyProofs SrcErase LocalProofs1 RowEq FreshProofs.
 Open Scope Z_scope.
 
 Definition er_row (w : row) : row :=
@@ -103,7 +103,7 @@ Definition post (m : mode) (maxdiff : Z) (rows1 rows2 : list row) : res outputs 
   match m with
   | Separate => Ok (mkOut (filter_subsequent f1) (Some f2) None)
   | _ =>
-    do js <- results_resolve (f1 ++ f2) maxdiff;
+    do js <- results_resolve (f1 ++ filter (fun w => negb (row_in w f1)) f2) maxdiff;     (* repair F12 *)
     let joined := fst js in let sep := snd js in
     match m with
     | Best => let jids := map qid joined in
@@ -128,18 +128,25 @@ Proof. unfold program_run, multi_execute, post.
 
 Definition er_out (o : outputs) : outputs :=
   mkOut (map er_row (o_main o)) (option_map (map er_row) (o_1 o)) (option_map (map er_row) (o_2 o)).
-Lemma er_post m md r1 r2 : post m md (map er_row r1) (map er_row r2) = rmap er_out (post m md r1 r2).
-Proof. unfold post. destruct m.
-  - rewrite <- map_app, !er_filter_subsequent, <- map_app, er_results_resolve.
+(* the rows of the two passes: AlignedRest = False on first-pass rows, True on second-pass rows (FreshProofs.pass_flags: holds in every
+   run, ModesProofs4.execute_rest).  Without it `row not in rows` (repair F12) could tell apart two rows that differ in `source` only. *)
+Lemma er_fresh m r1 r2 : pass_flags r1 r2 ->
+  filter (fun w => negb (row_in w (filter_subsequent (first_rows m (map er_row r1) (map er_row r2))))) (filter_subsequent (map er_row r2))
+  = map er_row (filter (fun w => negb (row_in w (filter_subsequent (first_rows m r1 r2)))) (filter_subsequent r2)).
+Proof. intros H. apply (fresh_rows_map er_row (fun _ => eq_refl) (fun _ => eq_refl) er_filter_subsequent m r1 r2 H). Qed.
+
+Lemma er_post m md r1 r2 : pass_flags r1 r2 -> post m md (map er_row r1) (map er_row r2) = rmap er_out (post m md r1 r2).
+Proof. intros HF. pose proof (er_fresh m r1 r2 HF) as X. unfold post. destruct m; cbn [first_rows] in X.
+  - rewrite X. rewrite <- map_app, !er_filter_subsequent, <- map_app, er_results_resolve.
     destruct (results_resolve _ md) as [[j s]|]; cbn [bind rmap fst snd er_rr]; [|reflexivity].
     unfold er_out; cbn [o_main o_1 o_2 option_map]. do 2 f_equal.
     rewrite map_map, (map_ext (fun x => qid (er_row x)) qid) by reflexivity.
     rewrite filter_map_comm, <- map_app, sort_by_map, er_filter_subsequent. reflexivity.
   - rewrite !er_filter_subsequent. reflexivity.
-  - rewrite !er_filter_subsequent, <- map_app, er_results_resolve.
+  - rewrite X. rewrite !er_filter_subsequent, <- map_app, er_results_resolve.
     destruct (results_resolve _ md) as [[j s]|]; cbn [bind rmap fst snd er_rr]; [|reflexivity].
     rewrite er_filter_subsequent. reflexivity.
-  - rewrite !er_filter_subsequent, <- map_app, er_results_resolve.
+  - rewrite X. rewrite !er_filter_subsequent, <- map_app, er_results_resolve.
     destruct (results_resolve _ md) as [[j s]|]; cbn [bind rmap fst snd er_rr]; [|reflexivity].
     rewrite er_filter_subsequent. reflexivity.
 Qed.
